@@ -598,7 +598,10 @@ where
                 return Err(CircuitBreakerError::OpenCircuit);
             }
 
+            #[cfg(not(feature = "verif-hooks"))]
             let start = std::time::Instant::now();
+            #[cfg(feature = "verif-hooks")]
+            let start = tokio::time::Instant::now();
             let result = inner.call(req).await;
             let duration = start.elapsed();
 
@@ -771,7 +774,10 @@ where
                 return fallback(req).await.map_err(CircuitBreakerError::Inner);
             }
 
+            #[cfg(not(feature = "verif-hooks"))]
             let start = std::time::Instant::now();
+            #[cfg(feature = "verif-hooks")]
+            let start = tokio::time::Instant::now();
             let result = inner.call(req).await;
             let duration = start.elapsed();
 
